@@ -57,7 +57,7 @@ def octet_helpers(modname):
     return ok
 
 
-LEAN_TY = {'int': 'Int', 'bool': 'Bool', 'tup': 'Py.Tup', 'tups': 'List Py.Tup'}
+LEAN_TY = {'int': 'Int', 'bool': 'Bool', 'tup': 'Py.Tup', 'tups': 'List Py.Tup', 'fun:tup->tup': '(Py.Tup → Py.M Py.Tup)'}
 
 
 def find_function(tree, path):
@@ -131,6 +131,21 @@ def tr_expr(cx, env, e):
             nm, ty = ex[u]
             cx.expr_params[nm] = ty
             return nm, ty, []
+    fn_ = cx.spec.get('funs', {})
+    if fn_ and isinstance(e, ast.Call):
+        u = unparse(e).strip()
+        if u in fn_:
+            # a call of a callback the function was handed (`encodeFun(chunk, asn1Spec, **options)`): a call of a function
+            # parameter of the kernel, about which the theorems assume nothing
+            nm, argnames, ty = fn_[u]
+            args, pre = [], []
+            for a_ in argnames:
+                v_, tv_, pv_ = tr_expr(cx, env, ast.Name(id=a_, ctx=ast.Load()))
+                args.append(v_)
+                pre += pv_
+            cx.expr_params[nm] = 'fun:' + '->'.join(ty)
+            tmp_ = cx.tmp()
+            return tmp_, ty[-1], pre + ['let %s ← %s %s' % (tmp_, nm, ' '.join(args))]
     if isinstance(e, ast.Constant):
         if isinstance(e.value, bool):
             return ('true' if e.value else 'false'), 'bool', []
@@ -278,6 +293,11 @@ def tr_expr(cx, env, e):
                 i, ti, pi = tr_expr(cx, env, s.upper)
                 if ti == 'int':
                     return '(Py.sliceToG %s %s)' % (t, i), 'tup', pt + pi
+            if s.upper is not None and s.lower is not None:
+                i, ti, pi = tr_expr(cx, env, s.lower)
+                j, tj, pj = tr_expr(cx, env, s.upper)
+                if ti == 'int' and tj == 'int':
+                    return '(Py.sliceG %s %s %s)' % (t, i, j), 'tup', pt + pi + pj
             raise Unsupported('slice %s' % unparse(e))
         i, ti, pi = tr_expr(cx, env, e.slice)
         if ti != 'int':
@@ -627,11 +647,17 @@ def tr_block(cx, env, stmts, ret_ty, tail):
             raise Unsupported('loop else')
         early = False
         tail_break = None
-        if (isinstance(s, ast.While) and s.body and isinstance(s.body[-1], ast.If) and not s.body[-1].orelse
-                and len(s.body[-1].body) == 1 and isinstance(s.body[-1].body[0], ast.Break)):
-            # `while c: ...; if d: break` (the break is the last thing the body does): leave the loop when d holds
-            tail_break = s.body[-1].test
-            s = ast.While(test=s.test, body=s.body[:-1], orelse=s.orelse)
+        after_break = []
+        if isinstance(s, ast.While):
+            for bi, bst in enumerate(s.body):
+                if (isinstance(bst, ast.If) and not bst.orelse and len(bst.body) == 1 and isinstance(bst.body[0], ast.Break)):
+                    # `while c: A; if d: break; B` (one break, at the top level of the body): after A leave the loop when d
+                    # holds, else do B and go round again
+                    tail_break = bst.test
+                    after_break = list(s.body[bi + 1:])
+                    s = ast.While(test=s.test, body=list(s.body[:bi]) + after_break, orelse=s.orelse)
+                    n_before = bi
+                    break
         for n in ast.walk(s):
             if isinstance(n, (ast.Break, ast.Continue)):
                 raise Unsupported('break/continue inside a loop')
@@ -703,11 +729,15 @@ def tr_block(cx, env, stmts, ret_ty, tail):
             c = as_bool(c, tc)
             rec = lambda e2: ['%s %s fuel_ %s' % (fname, rec_args, ' '.join(threaded))]
             if tail_break is not None:
-                def rec(e2, _fname=fname, _args=rec_args, _thr=threaded):
+                rec_plain = rec
+
+                def rec(e2, _thr=threaded, _after=after_break):
                     d, td, pd = tr_expr(cx, e2, tail_break)
-                    return pd + ['if %s then pure %s' % (as_bool(d, td), tup_of(_thr) if _thr else '()'),
-                                 'else %s %s fuel_ %s' % (_fname, _args, ' '.join(_thr))]
-            body = tr_block(cx, env_in, s.body, ret_ty, rec)
+                    rest_ = tr_block(cx, e2, _after, ret_ty, rec_plain)
+                    return pd + ['if %s then pure %s' % (as_bool(d, td), tup_of(_thr) if _thr else '()'), 'else do'] + ind(rest_)
+                body = tr_block(cx, env_in, s.body[:n_before], ret_ty, rec)
+            else:
+                body = tr_block(cx, env_in, s.body, ret_ty, rec)
             if pc:
                 # the condition reads the tuple (may raise IndexError): evaluated inside the loop function
                 aux = ['def %s%s : Nat → %sPy.M (%s)' % (fname, sig_consts, ''.join(LEAN_TY[env[n]] + ' → ' for n in threaded), ret),
